@@ -38,6 +38,7 @@ from common import err_kind
 
 warnings.simplefilter("ignore")      # MemoryLeakWarning of a thub whose copy is never read (call refused)
 from props import c01_t1
+from props import c01_tr
 from props import c01_flavours as fl
 from props import c01_exc as xc
 
@@ -1751,13 +1752,45 @@ def classify(c, io, drv):
     return "expr:%s%s:wrong-element" % (what, osort)
 
 
+TRANSLATED = {
+    "under_translator": {
+        "OpMethod._initialize / OpMethod._insert / AbstractOperatorOverloaderMeta.__new__ (lazy_core.py)":
+            "T1 c01_t1.py -> Gen/OpTable.lean (table + constants of the insertion logic + builder dict; `decide` theorems optable_*, opget_*)",
+        "StreamMeta.__binary__ (lazy_stream.py)": "c01_tr.py -> Gen/C01Src.lean `binary` (deep: Src.Closure program); src_binary_is_model",
+        "StreamMeta.__rbinary__ (lazy_stream.py)": "c01_tr.py -> Gen/C01Src.lean `rbinary` (deep); src_rbinary_is_model",
+        "StreamMeta.__unary__ (lazy_stream.py)": "c01_tr.py -> Gen/C01Src.lean `unary` (deep); src_unary_is_model",
+        "Stream.__getattr__ (lazy_stream.py)": "c01_tr.py -> Gen/C01Src.lean `getattr` (deep); src_getattr_is_model, src_getattr_next",
+        "Stream.__call__ (lazy_stream.py)": "c01_tr.py -> Gen/C01Src.lean `call` (deep); src_call_is_model",
+    },
+    "not_translated": {},
+}
+
+
 def regenerate(eng):
-    return c01_t1.regenerate(common.REPO, common.LEAN)
+    """ both translators run; a failure of one does not stop the other (its last good file stays) """
+    info, errs = {}, []
+    for name, fn in (("T1 operator table", c01_t1.regenerate), ("closure bodies", c01_tr.regenerate)):
+        try:
+            info[name] = fn(common.REPO, common.LEAN)
+        except Exception as e:
+            info[name] = "FAILED"
+            errs.append("%s: %s: %s" % (name, type(e).__name__, e))
+    eng.extra["translated"] = dict(TRANSLATED, regenerate=info)
+    if errs:
+        raise c01_tr.TranslationError("; ".join(errs))
+    return info
 
 
 def extra_checks(eng):
     for x in xc.extra_checks(eng):
         yield x
+    try:
+        ok, detail, seen, same = c01_tr.selftest(common.REPO, common.LEAN)
+    except Exception as e:
+        ok, detail, seen, same = False, "self-test could not run: %r" % (e,), [], False
+    eng.extra.setdefault("translated", dict(TRANSLATED))["selftest"] = {
+        "edits": [list(x) for x in seen], "source_translates_like_the_pinned_copy": same}
+    yield ("translator-selftest (%d edited copies seen, pinned source reproduces the committed Gen/C01Src.lean)" % len(seen), ok, detail)
 
 
 # ------------------------------------------------------------------------------------------------
